@@ -580,7 +580,8 @@ def exc_site(e):
 
 
 class Engine:
-    def __init__(self, run, profile='C01'):
+    def __init__(self, run, profile='C01', props=None):
+        self.props = props          # stop a run only at violations of these
         self.run = run
         self.cfg = run['config']
         self.world = World(self.cfg)
@@ -599,6 +600,10 @@ class Engine:
     def fault(self, k, n=1):
         self.faults[k] = self.faults.get(k, 0) + n
         self.probe(k, n)
+
+    def _stop(self):
+        return any(self.props is None or v['prop'] in self.props
+                   for v in self.viol)
 
     # ---- reference model ---------------------------------------------------
     def opkey(self, op):
@@ -648,7 +653,7 @@ class Engine:
         if cfg['omit']:
             self.probe('inputs_omitted_defaults_in_play')
         for opi, op in enumerate(self.run['ops']):
-            if self.viol and stop_at_first:
+            if stop_at_first and self._stop():
                 break
             m['touched'] = set()
             ev0 = len(m['evicted'])
@@ -673,7 +678,7 @@ class Engine:
                             and k in scan_core()['keys'])
                 _r.Random(op['seed']).shuffle(ks)
                 for k in ks[:op['n']]:
-                    if self.viol and stop_at_first:
+                    if stop_at_first and self._stop():
                         break
                     if k not in rel.data:
                         continue
